@@ -164,6 +164,22 @@ def gen_runs(rng, oracle, pool, tier):
         for lvl in range(23, 0, -1):
             t = [F('L%d.sol' % lvl, pick(rng)), D('d', t)] if lvl % 2 else [D('d', t), F('L%d.sol' % lvl, pick(rng)), F('skip.t.sol', b'garbage')]
         runs.append(Run(t, cat, ps, 'deep'))
+    # 3f. a deeply nested (but analysable) file below the root: the stack a file gets must not depend on where it sits
+    import gen_programs as gp
+    deep = [p['src'].encode('utf-8') for p in gp.special_programs() if p['gen'] in ('special:deep-parentheses', 'special:long-operator-chain')]
+    # 900 levels of `(x + ...)`: beyond what a 64 MiB thread can analyse in an unoptimised build, within the stack the binary gives its analysis
+    expr = 'x'
+    for _ in range(900):
+        expr = '(x + %s)' % expr
+    deep.append((gp.PRELUDE + 'contract Deep { uint private total; function f(uint x) public returns (uint) { x++; total += 1; return %s; } }\n' % expr).encode('utf-8'))
+    oracle.ensure(deep)
+    for cat in cats:
+        ps = oracle.names(cat)
+        pick = content_picker(oracle, pool, cat, ps)
+        for dsrc in deep:
+            if pick is None or dsrc not in oracle.cid or not oracle.good_for(dsrc, cat, ps):
+                continue
+            runs.append(Run([F('Top.sol', pick(rng)), D('core', [D('math', [F('Deep.sol', dsrc), F('Near.sol', pick(rng))])]), F('Deep.sol', dsrc)], cat, ps, 'deep-file'))
     # 4. runs that must abort: an eligible file that is unreadable / rejected by the parser /
     #    panics a detector, somewhere in the tree; and the same with an empty pattern list
     bad = [c for n, c in pool if not all(oracle.good_for(c, cat, oracle.names(cat)) for cat in cats)]
@@ -252,9 +268,24 @@ def binary_runs(rep, ctx, hz, oracle, pool, rng, n):
         if k == 0:
             t = [F('Z.sol', hits[0]), D('sub', [F('B.sol', hits[-1]), F('x.t.sol', b'garbage {')]), F('A.sol', hits[len(hits) // 2]),
                  F('README.md', b'# hi')]
+        deep_pair = None
+        if k == 1:
+            # a deeply nested file at the top of the analysed directory and, in a second run, two directories below it: where a
+            # file sits must not decide whether the run survives it (the binary analyses on a thread with a large stack)
+            expr = 'x'
+            for _ in range(600):
+                expr = '(x + %s)' % expr
+            dsrc = ('pragma solidity ^0.8.0;\ncontract Deep { uint private total; function f(uint x) public returns (uint) { x++; total += 1; return %s; } }\n' % expr).encode('utf-8')
+            top_tree = [F('Deep.sol', dsrc), F('Near.sol', hits[0])]
+            _, conforms_top, info_top = binary_one(hz, oracle, top_tree, rng, 1000 + k, exe)
+            t = [F('Near.sol', hits[0]), D('core', [D('math', [F('Deep.sol', dsrc)])])]
+            deep_pair = (conforms_top, info_top)
         hyp, conforms, info = binary_one(hz, oracle, t, rng, k, exe)
         done += 1
-        if info['exit'] < 0:
+        if deep_pair is not None and deep_pair[1]['exit'] == 0 and info['exit'] != 0:
+            info['note'] = 'the same file at the top level of the analysed directory is analysed without trouble (exit 0)'
+            fails.append(info)
+        elif info['exit'] < 0:
             # killed by a signal (e.g. SIGABRT after a stack overflow): not a panic, not a statement about the union
             rep.coverage.setdefault('binary_runs_killed_by_signal', []).append(info['exit'])
         elif hyp and not conforms:
@@ -381,6 +412,9 @@ def replay(obj):
             print('items of solstat_report.md:', info['report_items'])
             print('items the union demands:', info['expected_item_count'], '; every eligible file analysable:', hyp, '; report conforms:', conforms)
             if info['exit'] < 0:
+                if inp.get('note'):
+                    print('the binary was killed by signal %d; %s' % (-info['exit'], inp['note']))
+                    return 1
                 print('the binary was killed by signal %d (not a panic; outside C03)' % -info['exit'])
                 return 0
             return 1 if (hyp and not conforms) else 0
